@@ -21,7 +21,7 @@ theorem merge_obj_of_nonobj (t : Value) (ps : Members) (h : ∀ ms, t ≠ .obj m
     merge t (.obj ps) = merge .null (.obj ps) := by
   cases t <;> simp [merge] at *
 
-theorem mergeMs_cons_null (ts : Members) (k : Bytes) (p : Value) (ps : Members) (h : p.isNull = true) :
+theorem mergeMs_cons_null_E (ts : Members) (k : Bytes) (p : Value) (ps : Members) (h : p.isNull = true) :
     mergeMs ts ((k, p) :: ps) = mergeMs (erase k ts) ps := by
   cases p <;> simp [mergeMs, isNull] at *
 
@@ -46,13 +46,13 @@ theorem mergeMs_fresh : ∀ (ps ts : Members), (ts.map Prod.fst ++ ps.map Prod.f
       exact this _ hm _ (by simp) rfl
     cases hp : p.isNull with
     | true =>
-      rw [mergeMs_cons_null ts k p ps hp, erase_of_not_mem k ts hk]
+      rw [mergeMs_cons_null_E ts k p ps hp, erase_of_not_mem k ts hk]
       simp only [pruneV, hp, if_true]
       apply mergeMs_fresh ps ts
       refine List.Nodup.sublist ?_ h
       exact List.Sublist.append (List.Sublist.refl _) (List.Sublist.cons _ (List.Sublist.refl _))
     | false =>
-      rw [mergeMs_cons_nonnull ts k p ps hp, (lookup_eq_none_iff k ts).mpr hk,
+      rw [mergeMs_cons_nonnull ts k p ps hp, (lookup_eq_none_iff_E k ts).mpr hk,
         set_of_not_mem k _ ts hk]
       simp only [pruneV, hp, Option.getD_none]
       rw [mergeMs_fresh ps (ts ++ [(k, merge .null p)]) (by simpa using h)]
@@ -308,7 +308,7 @@ theorem mergeDocsC_den : ∀ (pms : List (Bytes × Cst)) (keys : List Bytes) (ob
         simp only [Bool.false_eq_true, if_false]
         have ⟨s1, s2⟩ := docRemoveIgnore_inv keys ob (unquote k) hw
         refine ⟨s1, ?_⟩
-        rw [Spec.mergeMs_cons_null _ _ _ _ (by rw [isNull_valueOf]; exact hv), s2]
+        rw [Spec.mergeMs_cons_null_E _ _ _ _ (by rw [isNull_valueOf]; exact hv), s2]
       | false =>
         have hnn : (valueOf v).isNull = false := by rw [isNull_valueOf]; exact hv
         rw [Spec.mergeMs_cons_nonnull _ _ _ _ hnn]
